@@ -23,8 +23,7 @@ Proof.
     apply negb_true_iff in M. destruct (wf_unmod s' W M) as (A & B & C). auto. }
   destruct (negb (persistent s)).
   - intros H; inversion H; subst. destruct (finish_flush_proj (insert_row (sync_b s) s)) as (A & B & C & D & _). auto.
-  - destruct (negb (is_nohist (x_c s)) && negb (is_some (x_d s))); [discriminate|].
-    intros H; inversion H; subst. destruct (finish_flush_proj (update_row (sync_b s) s)) as (A & B & C & D & _). auto.
+  - intros H; inversion H; subst. destruct (finish_flush_proj (update_row (sync_b s) s)) as (A & B & C & D & _). auto.
 Qed.
 
 Lemma clean_changes : forall s, x_c s = NoHist -> b_c s = NoHist -> c_c s = NoHist ->
@@ -53,13 +52,12 @@ Proof.
     + unfold sync_b. rewrite hist_b_eq, C, D. unfold from_object. cbn. destruct p; reflexivity.
 Qed.
 
-Lemma upd_x_exp : forall s, wf s ->
-  negb (is_nohist (x_c s)) && negb (is_some (x_d s)) = false ->
-  opt_or (upd_x s) (db_x s) = exp_x s.
+Lemma upd_x_exp : forall s, wf s -> opt_or (upd_x s) (db_x s) = exp_x s.
 Proof.
-  intros s W KE. unfold upd_x, exp_x.
-  destruct (x_c s) as [| | |p] eqn:C, (x_d s) as [v|] eqn:D; cbn in *; try discriminate; try reflexivity.
-  destruct (v =? p) eqn:E; [|reflexivity]. apply N.eqb_eq in E. subst. cbn. symmetry. eapply wf_x_comm; eauto.
+  intros s W. unfold upd_x, exp_x.
+  destruct (x_c s) as [| | |p] eqn:C; cbn [is_nohist opt_or]; try reflexivity.
+  destruct (opt_or (x_d s) 0 =? p) eqn:E; [|reflexivity]. apply N.eqb_eq in E. rewrite E.
+  cbn. symmetry. eapply wf_x_comm; eauto.
 Qed.
 
 Lemma flush_dbc_exp : forall s, wf s ->
@@ -91,8 +89,7 @@ Theorem flush_persists_guarded : forall s, wf s -> flush_guard s = true ->
   exists s', flush s = (s', Done (RDb (exp_x s) (exp_b s) (db_c s'))) /\
              db_x s' = exp_x s /\ db_b s' = exp_b s /\ same_set (db_c s') (exp_c s).
 Proof.
-  intros s W G. unfold flush_guard in G. apply andb_true_iff in G. destruct G as [G1 G2].
-  apply negb_true_iff in G1, G2. unfold flush.
+  intros s W G2. unfold flush_guard in G2. apply negb_true_iff in G2. unfold flush.
   destruct (persistent s && negb (modified s)) eqn:NOOP.
   { apply andb_true_iff in NOOP. destruct NOOP as [_ M]. apply negb_true_iff in M.
     destruct (wf_unmod s W M) as (A & B & C). exists s. unfold db_ret, exp_x, exp_b, exp_c.
@@ -108,7 +105,7 @@ Proof.
     eexists. split; [|split; [exact EX|split; [exact EB|]]].
     + unfold db_ret. rewrite EX, EB. reflexivity.
     + rewrite DC, (flush_dbc_ext s _ ICD ICC IDC). apply flush_dbc_exp; assumption.
-  - apply negb_false_iff in NP. rewrite NP in G1. cbn [andb] in G1. rewrite G1.
+  - apply negb_false_iff in NP.
     destruct (finish_flush_proj (update_row (sync_b s) s)) as (_ & _ & _ & _ & DX & DB & DC & _).
     destruct (update_row_proj (sync_b s) s) as (_ & _ & UB & UCD & UCC & UDC & _ & _ & UX & _).
     assert (EX : db_x (finish_flush (update_row (sync_b s) s)) = exp_x s).
@@ -120,12 +117,13 @@ Proof.
     + rewrite DC, (flush_dbc_ext s _ UCD UCC UDC). apply flush_dbc_exp; assumption.
 Qed.
 
-(* ---------- the two defects ---------- *)
-Definition w_del_flush : list op := [DelX; Flush].
-Theorem flush_after_del_raises : 
+(* ---------- the former defect (repaired in f879cdb): a deleted column attribute persists as NULL ---------- *)
+Theorem flush_after_del_persists_null :
   let s := fst (run KList [DelX] (init OLoaded 5 1 [1; 2])) in
-  wf s /\ hist_x s = ([], [], [5]) /\ snd (flush s) = Fail KeyError.
+  wf s /\ hist_x s = ([], [], [5]) /\ snd (flush s) = Done (RDb 0 1 [1; 2]).
 Proof. split; [apply run_wf, init_wf|]. vm_compute. auto. Qed.
+
+(* ---------- the remaining defect ---------- *)
 
 Theorem flush_after_coll_del_keeps_rows :
   let s := fst (run KList [CDel] (init OLoaded 5 1 [1; 2])) in
